@@ -36,7 +36,7 @@ class Case:
 # ------------------------------------------------------------------ options
 
 @st.composite
-def options(draw, integrators=('Euler', 'RK4', 'implicitfast'), solvers=('Newton',), cones=('pyramidal', 'elliptic'),
+def options(draw, integrators=('Euler', 'Euler', 'implicitfast', 'implicitfast', 'RK4'), solvers=('Newton',), cones=('pyramidal', 'elliptic'),
             flags=True, fluid=True, iterations=60, timestep=(0.0005, 0.01), gravity=True, passive_flags=False):
   a = dict(timestep=mg.fmt(draw(mg.num(timestep[0], timestep[1], 4))))
   a['integrator'] = draw(st.sampled_from(list(integrators)))
@@ -82,7 +82,7 @@ def _labels_from_opt(o):
 
 
 @st.composite
-def models(draw, max_bodies=4, family=None, contacts=True, sensors=True, opt_kwargs=None, mocap=True,
+def models(draw, max_bodies=3, family=None, contacts=True, sensors=True, opt_kwargs=None, mocap=True,
            actuators=True, tendons=True, equalities=True, plane=None, spread=0.6, stateful=True, min_bodies=1,
            actearly=False, joint_types=mg.JOINT_TYPES):
   oxml, oinfo = draw(options(**(opt_kwargs or {})))
